@@ -241,4 +241,10 @@ theorem specBin_inI64 {op : BinOp} {x y v : Int} (hx : inI64 x = true) (hy : inI
   case comma => rw [← ok_inj h]; exact hy
   all_goals exact Res.noConfusion h
 
+theorem validName_ne_nil {n : Bytes} (h : validName n = true) : n ≠ [] := by
+  intro he; rw [he] at h; simp [validName] at h
+
+theorem wordOf_name {n : Bytes} (h : validName n = true) : wordOf (.word n) = some n := by
+  simp [wordOf, validName_ne_nil h]
+
 end ShVerif.C20
